@@ -773,7 +773,7 @@ class Operator(object):
             ``self + other <==> (x --> self(x) + other(x))``
         """
         if other in self.range:
-            return OperatorVectorSum(self, other)
+            return OperatorVectorSum(self, other.copy())
         elif other in self.range.field:
             constant_vector = other * self.range.one()
             return OperatorVectorSum(self, constant_vector)
